@@ -3054,6 +3054,12 @@ class Mailbox:
 
         mbox = await server.get_mailbox(name)
 
+        # From here on use the name the mailbox is known under (`name` may for
+        # example start with the hierarchy separator, which `get_mailbox()`
+        # ignores but which would turn into an absolute path below.)
+        #
+        name = mbox.name
+
         inferior_mailboxes = mbox.mailbox.list_folders()
 
         # You can not delete a mailbox that has the '\Noselect' attribute
